@@ -167,6 +167,16 @@ func CheckC12(run *ev.Run) {
 				}
 			}
 		}
+		if model.FA != nil && model.FB != nil {
+			if *model.FA && *model.FB {
+				st["acyclic-pair(terminates_acyclic applies)"]++
+				if model.R == "fuel" {
+					run.Broken("corr:C12:theorem-vs-driver", "the driver runs out of fuel on a pair satisfying the hypothesis of terminates_acyclic", s.Replay(nil))
+				}
+			} else {
+				st["recursive-definitions(guard only)"]++
+			}
+		}
 		if model.VA != nil && model.VB != nil && *model.VA && *model.VB {
 			st["model-valid-pair"]++
 			if model.R == "panic" {
